@@ -348,6 +348,19 @@ func (vc *VC) callEffect(ci *callInfo, fc *FuncContract) {
 				post.havocHeap, post.havocGhst, post.havocLocal = true, true, true
 			} else if m == "heap" {
 				post.havocHeap = true
+				post.keepPats = fc.Preserves
+			} else if key, obj, ok := vc.resolveObjMod(m, vc.calleeEnv(ci, fc, pre, pre)); ok {
+				// only this object's field changes
+				old := pre.get(key)
+				if cur, set := post.vals[key]; set {
+					old = cur
+				}
+				fresh := vc.freshConst("objmod", sortOfKey(vc.keyMeta(key)))
+				nw := vc.storeT(old, obj, fresh)
+				if ci.guard != "" {
+					nw = fmt.Sprintf("(ite %s %s %s)", ci.guard, nw, old)
+				}
+				post.set(key, nw)
 			} else {
 				post.havocPats = append(post.havocPats, m)
 			}
@@ -373,6 +386,103 @@ func (vc *VC) callEffect(ci *callInfo, fc *FuncContract) {
 		}
 	}
 	vc.st = post
+}
+
+// errorsAsFacts: errors.As(err, &x) returning true leaves a non-nil value of x's type in x (Go library
+// semantics, assumed). The target is recognised when it is the address of a pointer-typed variable.
+func (vc *VC) errorsAsFacts(ci *callInfo, res []string) {
+	if len(ci.argVals) < 2 || len(res) < 1 {
+		return
+	}
+	mi, ok := ci.argVals[1].(*ssa.MakeInterface)
+	if !ok {
+		return
+	}
+	pt, ok := mi.X.Type().Underlying().(*types.Pointer)
+	if !ok {
+		return
+	}
+	if _, isPtr := pt.Elem().Underlying().(*types.Pointer); !isPtr {
+		return
+	}
+	k := vc.cellKey(pt.Elem())
+	vc.assume(fmt.Sprintf("(=> %s (not (= (select %s %s) 0)))", res[0], vc.st.get(k), vc.val(mi.X)))
+}
+
+func sortOfKey(m keyMeta) string {
+	// "(Array Int X)" -> X
+	s := strings.TrimPrefix(m.Sort, "(Array Int ")
+	return strings.TrimSuffix(s, ")")
+}
+
+// callFrameCheck: when the function under verification declares a frame, every callee effect must lie inside it.
+func (vc *VC) callFrameCheck(ci *callInfo, fc *FuncContract) {
+	if vc.fc == nil || !vc.fc.HasMod || vc.fc.Sweep {
+		return
+	}
+	has := func(m string) bool {
+		for _, x := range vc.fc.Modifies {
+			if x == m || x == "*" {
+				return true
+			}
+			if x == "heap" {
+				if _, isGhost := vc.C.Ghosts[m]; !isGhost {
+					return true
+				}
+			}
+		}
+		for _, u := range vc.fc.Updates {
+			if u.Ghost.Name == m {
+				return true
+			}
+		}
+		return false
+	}
+	var bad []string
+	switch {
+	case fc == nil:
+		if !has("*") && !has("heap") {
+			bad = append(bad, "callee "+ci.name+" has no contract (heap unknown afterwards)")
+		}
+	case fc.Pure:
+	case fc.HasMod:
+		env := vc.calleeEnv(ci, fc, vc.st, vc.st)
+		for _, m := range fc.Modifies {
+			if has(m) {
+				continue
+			}
+			if key, obj, ok := vc.resolveObjMod(m, env); ok {
+				// allowed if the caller may modify the same object's field, the whole component, or the object is fresh
+				if vc.modAllows(vc.fc, key) {
+					continue
+				}
+				goal := fmt.Sprintf("(> %s %s)", obj, vc.entryAlloc)
+				for _, om := range vc.objMods() {
+					if om.key == key {
+						goal = fmt.Sprintf("(or %s (= %s %s))", goal, obj, om.obj)
+					}
+				}
+				vc.oblige("frame", "call-modifies-object/"+shortName(ci.name), goal, vc.fc.allTags(), ci.pos, nil)
+				continue
+			}
+			bad = append(bad, "callee "+ci.name+" modifies "+m)
+		}
+	default:
+		if !has("*") && !has("heap") {
+			bad = append(bad, "callee "+ci.name+" declares no frame (heap unknown afterwards)")
+		}
+	}
+	if fc != nil {
+		for _, u := range fc.Updates {
+			if !has(u.Ghost.Name) {
+				bad = append(bad, "callee "+ci.name+" updates "+u.Ghost.Name)
+			}
+		}
+	}
+	for _, b := range bad {
+		o := vc.oblige("frame", "call/"+shortName(ci.name), "false", vc.fc.allTags(), ci.pos, nil)
+		o.Detail["why"] = b
+	}
 }
 
 // applyCall encodes one call: obligations for the callee's pre-condition and site clauses, the state
@@ -415,6 +525,9 @@ func (vc *VC) applyCall(ci *callInfo) []string {
 	} else {
 		vc.abstracted("call without contract: " + ci.name)
 	}
+	if ci.kind != "defer-reg" {
+		vc.callFrameCheck(ci, fc)
+	}
 	vc.callEffect(ci, fc)
 	// results
 	var res []string
@@ -431,6 +544,16 @@ func (vc *VC) applyCall(ci *callInfo) []string {
 			}
 			vc.typeFacts(c, rs.At(i).Type(), nonnil)
 			res = append(res, c)
+		}
+	}
+	if ci.name == "errors.As" || ci.name == vc.P.ModPath+"/errors.As" {
+		vc.errorsAsFacts(ci, res)
+	}
+	if fc != nil && len(fc.Updates) > 0 {
+		for _, u := range fc.Updates {
+			env := vc.calleeEnv(ci, fc, vc.st, pre)
+			vc.bindCallResults(env, ci, res)
+			vc.ghostSet(u, env, ci.guard)
 		}
 	}
 	if fc != nil {
@@ -564,15 +687,19 @@ func (vc *VC) ghostSet(c *Clause, env *specEnv, guard string) {
 	}
 	old := vc.st.get(key)
 	var nw string
-	if gd != nil && gd.Kind == "fact" {
+	if gd != nil && (gd.Kind == "fact" || gd.Kind == "table") {
 		if len(gs.Args) != len(gd.Params) {
-			vc.fail("%s:%d: ghost fact %s takes %d arguments", c.File, c.Line, gs.Name, len(gd.Params))
+			vc.fail("%s:%d: ghost %s takes %d arguments", c.File, c.Line, gs.Name, len(gd.Params))
 		}
 		var args []string
 		for _, a := range gs.Args {
 			args = append(args, vc.tr(a, env, c).term)
 		}
-		nw = nestedStore(old, args, "true")
+		v := "true"
+		if gs.Val != nil {
+			v = vc.tr(gs.Val, env, c).term
+		}
+		nw = nestedStore(old, args, v)
 	} else {
 		nw = vc.tr(gs.Val, env, c).term
 	}
@@ -917,8 +1044,46 @@ func (vc *VC) ret(ins *ssa.Return) {
 		o := vc.oblige("ensures", fmt.Sprintf("return#%d/%s%s", k, det, tagSuffix(e.Tags)), g, e.Tags, ins.Pos(), e)
 		o.Detail["return"] = fmt.Sprint(k)
 	}
-	// frame for ghost/thread-local state is part of ensures; fnspec result binding
+	vc.updatesCheck(ins, env)
 	vc.fnspecReturn(ins)
+}
+
+// updatesCheck: a verified function that declares "updates" must leave each named table exactly as the
+// declared updates (applied in order to the entry state) prescribe.
+func (vc *VC) updatesCheck(ins *ssa.Return, retEnv *specEnv) {
+	if vc.fc == nil || len(vc.fc.Updates) == 0 {
+		return
+	}
+	final := vc.st
+	names := map[string]bool{}
+	var order []string
+	// expected tables: the entry tables, updated at arguments evaluated in the final heap
+	vc.st = final.derive()
+	for _, u := range vc.fc.Updates {
+		if key, _, ok := vc.ghostKey(u.Ghost.Name); ok {
+			vc.st.set(key, vc.entry.get(key))
+		}
+	}
+	for _, u := range vc.fc.Updates {
+		env := vc.envAt(vc.st, vc.entry)
+		for k, v := range retEnv.vars {
+			if strings.HasPrefix(k, "result") {
+				env.vars[k] = v
+			}
+		}
+		vc.ghostSet(u, env, "")
+		if !names[u.Ghost.Name] {
+			names[u.Ghost.Name] = true
+			order = append(order, u.Ghost.Name)
+		}
+	}
+	expected := vc.st
+	vc.st = final
+	for _, n := range order {
+		key, _, _ := vc.ghostKey(n)
+		g := fmt.Sprintf("(= %s %s)", final.get(key), expected.get(key))
+		vc.oblige("updates", fmt.Sprintf("return#%d/%s", vc.counts["return"], n), g, vc.fc.allTags(), ins.Pos(), vc.fc.Updates[0])
+	}
 }
 
 func (vc *VC) fnspecReturn(ins *ssa.Return) {}
